@@ -532,6 +532,16 @@ func (g *goProg) binop(a *AbsState, v *ssa.BinOp) []*AbsState {
 		if nonneg(x) && nonneg(y) {
 			a.st.le(r.Neg())
 		}
+		// d * (n / d): the largest multiple of d not above n, so n - d < d*(n/d) <= n
+		for _, pr := range [][2]ssa.Value{{v.X, v.Y}, {v.Y, v.X}} {
+			if q, isQ := pr[1].(*ssa.BinOp); isQ && q.Op == token.QUO && q.Y == pr[0] {
+				n, d := g.val(a, q.X), g.val(a, q.Y)
+				if nonneg(n) && a.st.minGE(d, qi(1)) {
+					a.st.leq(r, n)
+					a.st.lt(n.Sub(d), r)
+				}
+			}
+		}
 		a.vals[k] = r
 	case token.QUO:
 		r := g.havocT(a, "quo_"+v.Name(), v.Type())
